@@ -11,7 +11,7 @@ EXPLANATION = (
     "phase, rank 0 prints a diagnostic; a valid graph passes on every rank.  BOUNDED stand-in for the contract of "
     "main(): the executables are rebuilt from the working tree and run on 5 valid files (known optimum, one without "
     "final newline, one forest) and 5 invalid ones under every algorithm/parallel/verbose/cores combination, the "
-    "approximate demo with k=2,3, and the MPI demo under mpiexec -n 1..3 (thorough 4) with a 40 s watchdog: bad "
+    "approximate demo with k=2,3, and the MPI demo under mpiexec -n 1..3 (thorough 4) with a 90 s watchdog: bad "
     "input => non-zero exit, diagnostic, no algorithm output, termination of all ranks; valid input => exit 0 and "
     "'MCB weight = OPT' (approximate: within [OPT,(2k-1)OPT]) identically for every combination.")
 
